@@ -173,6 +173,12 @@ def execute(ctx, case):
                 continue
             r = s.threshold_at_metric(np.array([0.3, 0.6]), "fnr")
             k = ("tam",)
+            # user-supplied evaluation points as an array in arbitrary order: the array is the caller's, it must come back untouched
+            if float(np.abs(allv).max()) < 1e150:
+                pts_ = np.linspace(float(np.min(allv)), float(np.max(allv)), 9)[np.random.default_rng(case["_seed"] + step).permutation(9)]
+                pts0_ = pts_.copy()
+                s.threshold_at_metric(np.array([0.3, 0.6]), "fpr", pts_)
+                C(np.array_equal(pts_, pts0_, equal_nan=True), "threshold_at_metric changed the caller's points array", "hist-tam-points", before=pts0_, after=pts_)
         elif op == "boot":  # non-deterministic: only interleaved, never memoised
             s.bootstrap_sample(BootstrapConfig(sampling_method=str(rng.choice(["replacement", "single_pass", "dynamic"]))))
             continue
